@@ -7,7 +7,7 @@ import z3
 
 from .. import driver, extract, tactics
 from ..symrt import Ctx, SymNum, active, call, explore, term
-from .predutil import PredictWorld, eq_rec, ge_rec, rank_data_contract, shapes, std_replay
+from .predutil import PredictWorld, eq_rec, ge_rec, rank_data_contract, shapes, std_replay, generic_guard
 from .util import enc_model, settle
 from .c18 import _merge_canaries
 
@@ -40,6 +40,7 @@ def unit_rank_data(n):
     return _merge_canaries(settle(ctx.all_obls, mode="R"))
 
 
+@generic_guard("C11")
 def unit(model, sizes, generic=False):
     """generic: sizes = (1,)*n and every team has a symbolic number of members (the listed member is
     the arbitrary one, the aggregates are symbols): the same obligations for teams of every size"""
